@@ -38,7 +38,7 @@ ASSUMPTIONS = [
 REQUIRED_REACH = {"post.predict_submodel": 300, "regime.smoothed": 50, "regime.plain": 50, "regime.flat": 5,
                   "regime.equal_bp_at_Tmax": 3, "regime.equal_bp_at_Tmin": 3, "clause.between_flat": 100,
                   "clause.monotone": 300, "clause.exact_line": 100, "clause.asymptote": 30, "clause.loads": 300,
-                  "boundary.predict": 20}
+                  "boundary.predict": 20, "regime.percent_k_sum_at_or_above_one": 1500}
 REQUIRED_REACH_THOROUGH = {"kernel.boundscheck_equal": 1, "kernel.interpreted_equal": 1}
 
 VIOL = []
@@ -321,6 +321,7 @@ def temps_for(coef, tc, rng):
 def gen_cases(tier, seed):
     q = tier == "quick"
     cases = [dict(kind="vectors", n=25 if q else 50, batch=b) for b in range(32 if q else 400)]
+    cases += [dict(kind="vectors", n=100 if q else 200, batch=10000 + b, fully_smoothed=True) for b in range(32 if q else 160)]
     if not q:
         cases.append(dict(kind="kernel-diff", n=300, batch=0, timeout=2400))
     return cases
@@ -343,10 +344,22 @@ def run_case(spec):
     for it in range(spec["n"]):
         shape = B.SHAPES[int(rng.integers(0, 7))] if it % 8 else B.SHAPES[it // 8 % 7]
         tc = B.draw_tc(rng)
+        if spec.get("fully_smoothed"):
+            shape = "hdd_tidd_cdd_smooth"
         coef = B.draw_coefficients(rng, shape, tc)
+        if spec.get("fully_smoothed"):
+            # dead band smoothed from both sides up to and beyond its width: percent-k sum at 1, one ulp around it, and well above 1
+            # (the library rescales the pair; the shifted balance points then coincide up to rounding)
+            a = float(rng.uniform(0.05, 1.0))
+            q = rng.random()
+            b = 1.0 - a if q < 0.1 else float(np.nextafter(1.0 - a, 2.0)) if q < 0.2 else float(rng.uniform(max(0.0, 1.0 - a), 1.0))
+            coef["hdd_k"], coef["cdd_k"] = (a, b) if rng.random() < 0.5 else (b, a)
+            if coef["hdd_beta"] == coef["cdd_beta"]:
+                coef["cdd_beta"] = coef["hdd_beta"] * 2.5
+            I.reach("regime.percent_k_sum_at_or_above_one")
         doc = B.make_doc({"fw-su_sh_wi": dict(coefficients=coef, temperature_constraints=tc, f_unc=float(rng.uniform(0.1, 5)))}, settings)
         m = em.DailyModel.from_dict(doc)
-        T = temps_for(coef, tc, rng)
+        T = temps_for(coef, tc, rng) if not spec.get("fully_smoothed") else temps_for(coef, tc, rng)[::20]
         rng.shuffle(T)              # a reporting year is not sorted by temperature
         CUR.update(coef=coef, tc=tc, judge=True)
         before = dict(I.REACH)
